@@ -6,6 +6,11 @@ ALL = [f"C{i:02d}" for i in range(1, 21)]
 
 # id -> (category, technique, text, note, design_ref)
 CHECKS = {
+    "C19": ("model_checking",
+            "exhaustive enumeration of operation histories on the real GSOM network with a well-formedness invariant evaluated after every step",
+            "Every history of length 4/5 over {store_batch(1..3), smooth, compact, set_learning_rate} x 5 input families (clusters, exact duplicates, far outlier, constant, collinear) x 32/64 network configurations x 2/3 random-answer policies is executed on the real Network (harness input/storage types); key==coordinate, unique coordinates, finite weights of input dimension, node capacity, find(), finite error measures, compaction rules are judged after construction and after every step. The real Rosomaxa population is streamed and observed through NetworkState; weight vectors of real VRP individuals (incl. the solution without tours) must be finite and of constant dimension.",
+            "2-dimensional inputs; history length <= 5; Rosomaxa phase monotonicity and elite bounds are decided by C08's search.",
+            "DESIGN.md section 5 C19"),
     "C08": ("model_checking",
             "explicit-state search over operation histories of the real populations against a multiset-of-everything-offered reference model",
             "Greedy and Elitism: BFS over all histories of add/add_all/on_generation (12 individuals incl. +-0 and near-equal fitness, 7 batches, 3 speeds) up to depth 5/7 with states merged on observable content and 3 random-answer policies per transition. Rosomaxa: every history up to depth 3/4 after 5 canned prefixes that reach every phase. Every state is rebuilt on the real type by replaying its history; ranked/select/all/size/phase are judged in every state. Consequence: seeded solves through EvolutionConfigBuilder (every order of the calls touching the initial configuration) never return worse than the seed.",
